@@ -313,14 +313,13 @@ class Adapter:
         kw = {k: w.val(v) for k, v in op.get("args", {}).items()}
         if op.get("respell"):
             # the same inputs spelled another way: a dict with its items inserted in the opposite
-            # order (an equal dict), plain numbers as numpy scalars of the same value
+            # order (an equal dict).  (Plain numbers as numpy scalars were tried and withdrawn: with
+            # single-precision coordinates NumPy's promotion rules legitimately change the last
+            # bits - float32 + python float stays float32, float32 + np.float64 is rounded once
+            # more - and a finite difference amplifies that beyond any tight tolerance.)
             for k, v in list(kw.items()):
                 if type(v) is dict:
                     kw[k] = {kk: v[kk] for kk in reversed(list(v))}
-                elif type(v) is int:
-                    kw[k] = np.int64(v)
-                elif type(v) is float:
-                    kw[k] = np.float64(v)
         return kw
 
     def run(self, w, op):
